@@ -616,7 +616,13 @@ func (c *compiler) arrayOperator(l interface{}, r interface{}, op string) (inter
 			err = fmt.Errorf("cannot append '%v' (%s) as %s value in assignment", r, t, elemType)
 		}
 		if err == nil {
-			return reflect.Append(reflect.ValueOf(l), reflect.ValueOf(r)).Interface(), nil
+			// a + x is a new value: it must not write into spare capacity of a's
+			// backing array, which a, other results of a + y and other goroutines
+			// rendering with the same data still use
+			lv := reflect.ValueOf(l)
+			sum := reflect.MakeSlice(lv.Type(), 0, lv.Len()+1)
+			sum = reflect.AppendSlice(sum, lv)
+			return reflect.Append(sum, reflect.ValueOf(r)).Interface(), nil
 		}
 	default:
 		err = fmt.Errorf("unkown operator (%s) on %T and %T ", op, l, r)
